@@ -252,7 +252,19 @@ def cascade(ctx, R):
             while x is not None and x.kind == 'call':
                 if x.extra is not None and hasattr(x.extra, 'args'):
                     for mc in closure_args_of_call(F, b, x.extra):
-                        if ExprBuilder(mc).place(0, ()).has_field('winner_track'):
+                        r_ = ExprBuilder(mc).place(0, ())
+                        if r_.has_field('winner_track'):
+                            excl_insert = True
+                        # ... or over the labelled winners map itself: `visual_winners.values().map(|w| w[0].0)` - the
+                        # first component of the (track, VotingType::Visual) pairs the appearance stage produced
+                        rs_ = r_.strip()
+                        first = (rs_.kind == 'place' and rs_.fields[-1:] == ('0',)) or (rs_.kind == 'call' and rs_.proj[-1:] == ('0',)) \
+                            or (r_.kind == 'call' and r_.proj[-1:] == ('0',))
+                        chain_ = eb.arg(c, len(c.args) - 1)
+                        if first and any(y.kind == 'call' and y.name.rsplit('::', 1)[-1] == 'values' for y in chain_.walk()) and \
+                                any('VotingType' in str(b.locals[a_['pl']['l']]) for y in chain_.walk() if y.kind == 'call' and
+                                    y.name.rsplit('::', 1)[-1] == 'values' and hasattr(y.extra, 'args')
+                                    for a_ in y.extra.args[:1] if a_.get('pl')):
                             excl_insert = True
                 x = x.args[0] if x.args else None
     if visual_label:
